@@ -502,6 +502,70 @@ func acsAll(entries []common.Entry) {
 	}
 }
 
+// isolation: rune fallbacks registered or removed on one screen are that screen's own; a
+// second screen (no ACS: the fallback table decides) and the package-level table keep the
+// built-in rules, whatever the order of creation.
+func isolation(entries []common.Entry) {
+	if *hc.Shard != 0 {
+		return
+	}
+	var sun *terminfo.Terminfo
+	for _, e := range entries {
+		if e.Name == "sun" {
+			sun = e.Ti
+		}
+	}
+	if sun == nil {
+		return
+	}
+	nDefaults := len(tcell.RuneFallbacks)
+	ul := tcell.RuneFallbacks[tcell.RuneULCorner]
+	type fop struct {
+		name string
+		do   func(s tcell.Screen)
+	}
+	fops := []fop{
+		{"Unregister(RuneULCorner)", func(s tcell.Screen) { s.UnregisterRuneFallback(tcell.RuneULCorner) }},
+		{"Register(RuneULCorner,#)", func(s tcell.Screen) { s.RegisterRuneFallback(tcell.RuneULCorner, "#") }},
+		{"Register(U+0416,Z)", func(s tcell.Screen) { s.RegisterRuneFallback(0x0416, "Z") }},
+	}
+	for mask := 1; mask < 1<<uint(len(fops)); mask++ {
+		for _, bFirst := range []bool{true, false} {
+			w.R.Evaluations++
+			var b *rig
+			if bFirst {
+				b = newRig(sun, "US-ASCII", "C", 4, 1)
+			}
+			a := newRig(sun, "US-ASCII", "C", 4, 1)
+			var names []string
+			for i, f := range fops {
+				if mask&(1<<uint(i)) != 0 {
+					f.do(a.s)
+					names = append(names, f.name)
+				}
+			}
+			if !bFirst {
+				b = newRig(sun, "US-ASCII", "C", 4, 1)
+			}
+			b.s.SetContent(0, 0, tcell.RuneULCorner, nil, tcell.StyleDefault)
+			b.s.SetContent(1, 0, 0x0416, nil, tcell.StyleDefault)
+			b.s.Show()
+			got := string([]rune{b.term.At(0, 0).R, b.term.At(1, 0).R})
+			if got != ul+"?" {
+				w.Violation("fallback-shared", fmt.Sprintf("after %v on one screen, another screen (created %s) shows U+250C, U+0416 as %q, want %q", names, map[bool]string{true: "before", false: "after"}[bFirst], got, ul+"?"), nil)
+			}
+			if len(tcell.RuneFallbacks) != nDefaults || tcell.RuneFallbacks[tcell.RuneULCorner] != ul {
+				w.Violation("fallback-global", fmt.Sprintf("after %v on a screen the package-level RuneFallbacks table changed", names), nil)
+				tcell.RuneFallbacks[tcell.RuneULCorner] = ul
+				delete(tcell.RuneFallbacks, 0x0416)
+			}
+			a.s.Fini()
+			b.s.Fini()
+			w.AddDistinct(1)
+		}
+	}
+}
+
 // ---- fallback registration histories ----
 
 type hop struct {
@@ -642,5 +706,6 @@ func main() {
 	acsAll(entries)
 	envShapes(entries)
 	histories(entries)
+	isolation(entries)
 	w.Finish()
 }
